@@ -165,7 +165,8 @@ fn gz(data: &[u8]) -> Vec<u8> {
     if h == 3 {
         b = b.extra(vec![b'A', b'P', 2, 0, 1, 2]);
     }
-    let level = if data.len() % 3 == 0 { flate2::Compression::fast() } else { flate2::Compression::default() };
+    // (level 0 writes stored blocks: a damaged payload byte still inflates, only the CRC-32 in the trailer tells)
+    let level = if data.len() % 5 == 0 { flate2::Compression::none() } else if data.len() % 3 == 0 { flate2::Compression::fast() } else { flate2::Compression::default() };
     let mut e = b.write(Vec::new(), level);
     e.write_all(data).unwrap();
     e.finish().unwrap()
